@@ -14,6 +14,10 @@ class Invalid(Exception):
     """The value / literal cannot be coerced to the type."""
 
 
+class NullVariable(Invalid):
+    """A variable whose value is null reached a non-null position (the case the specification defers to run time)."""
+
+
 MISSING = object()  # "no value" (absent variable, absent field)
 
 INT_MIN, INT_MAX = -(2 ** 31), 2 ** 31 - 1
@@ -181,7 +185,7 @@ def coerce_literal(node, typ, variables):
             return MISSING
         v = variables[name]
         if v is None and isinstance(typ, NonNull):
-            raise Invalid
+            raise NullVariable
         return v
     if isinstance(typ, NonNull):
         if k == "NullValueNode":
